@@ -15,9 +15,12 @@
 (***************************************************************************)
 EXTENDS SimProps, SimMatch
 
+Stl == INSTANCE Settlement
+
 CONSTANTS MaxUpdates, MaxReqs,
           TwoStrats,    \* a second strategy "B" (its own trade and runner context) trades the same runner
-          Iso           \* config.simulated_strategy_isolation
+          Iso,          \* config.simulated_strategy_isolation
+          WithClose     \* the environment may close the market (result drawn for runner 11); the run ends there
 
 VARIABLES s, pc, nreq, book, upd, tainted, last
 vars == <<s, pc, nreq, book, upd, tainted, last>>
@@ -42,7 +45,7 @@ Books ==     \* <<available to back (best first), available to lay (best first)>
 Deltas ==    \* volume newly traded in the update (price -> pence, both sides reported)
     { <<>>, (200 :> 200), (200 :> 400), (210 :> 200), (190 :> 400) @@ (200 :> 200) }
 
-NoUpd == [atb |-> <<>>, atl |-> <<>>, delta |-> <<>>, status |-> "OPEN", version |-> 1, removed |-> FALSE]
+NoUpd == [atb |-> <<>>, atl |-> <<>>, delta |-> <<>>, status |-> "OPEN", version |-> 1, removed |-> FALSE, result |-> "NA"]
 
 InitMkt == [status |-> "NONE", version |-> 0, inplay |-> FALSE, betdelay |-> 0, bsprec |-> FALSE,
             closed |-> FALSE, pt |-> -1, removed |-> <<>>, nactive |-> 2, nwin |-> 1]
@@ -66,7 +69,7 @@ Upd ==
          /\ (s.clock < 0 => (~rm /\ st = "OPEN" /\ d = <<>>))          \* the first update is an ordinary open book
          /\ (rm \/ st # "OPEN" => d = <<>>)
          /\ upd' = [atb |-> IF rm THEN <<>> ELSE b[1], atl |-> IF rm THEN <<>> ELSE b[2], delta |-> d, status |-> st,
-                    version |-> book.version + (IF bump \/ s.clock < 0 THEN 1 ELSE 0), removed |-> rm]
+                    version |-> book.version + (IF bump \/ s.clock < 0 THEN 1 ELSE 0), removed |-> rm, result |-> "NA"]
     /\ s' = Step(s, [ev |-> "upd", a |-> [pt |-> s.clock + Gap, mid |-> Mid]], <<>>)
     /\ pc' = "pend"
     /\ last' = [act |-> "upd", u |-> upd']
@@ -82,7 +85,7 @@ RLab(o) == IF o = "o1" THEN "o1.r1" ELSE IF o = "o2" THEN "o2.r1" ELSE IF o = "b
 \* the engine's answer for every order of the package, computed by SimMatch on the book that
 \* prevailed before this update
 Exec ==
-    /\ pc = "pend"
+    /\ pc \in {"pend", "cpend"}
     /\ LET i == FirstDue(s) IN
        /\ i > 0
        /\ LET p == s.hq[i]
@@ -184,7 +187,35 @@ Cb ==
     /\ pc' = "idle"
     /\ UNCHANGED <<book, upd>>
 
-Next == Upd \/ Exec \/ PendDone \/ Mw \/ Sweep \/ Cb
+\* ---- closure: the closing update (status CLOSED, results) first releases the packages that are due - they are executed
+\* against the last open book -, completes what they filled (FlumineSimulation._complete_simulated_orders), then the
+\* market is closed and every order settled by the exchange's rules (Settlement.tla).  The run ends there.
+CloseUpd ==
+    /\ WithClose /\ pc = "idle" /\ s.clock >= 0
+    /\ \E res \in {"WINNER", "LOSER"} :
+         upd' = [NoUpd EXCEPT !.status = "CLOSED", !.version = book.version, !.removed = book.removed,
+                             !.result = IF book.removed THEN "REMOVED" ELSE res]
+    /\ s' = Step(s, [ev |-> "upd", a |-> [pt |-> s.clock + Gap, mid |-> Mid]], <<>>)
+    /\ pc' = "cpend"
+    /\ last' = [act |-> "closeupd", u |-> upd']
+    /\ UNCHANGED <<nreq, book, tainted>>
+
+SettleOf(st, res) ==
+    [o \in {x \in DOMAIN st.ord : st.ord[x].inbl} |->
+        Stl!Profit(st.ord[o].side, st.ord[o].frags, "WIN", res, 1, 1, FALSE, 0, -1)]
+
+Close ==
+    /\ pc = "cpend" /\ FirstDue(s) = 0
+    /\ LET s1 == Step(s, [ev |-> "pend", a |-> [mid |-> Mid]], <<>>)
+           mk == [InitMkt EXCEPT !.status = "CLOSED", !.version = upd.version, !.closed = TRUE, !.pt = s.clock,
+                                 !.removed = IF upd.removed THEN <<Sel>> ELSE <<>>, !.nactive = 0]
+           s2 == Step(s1, [ev |-> "close", a |-> [mid |-> Mid]], [mkt |-> (Mid :> mk)])
+       IN /\ s' = s2
+          /\ last' = [act |-> "close", result |-> upd.result, settle |-> SettleOf(s2, upd.result)]
+    /\ pc' = "closed" /\ book' = upd
+    /\ UNCHANGED <<nreq, upd, tainted>>
+
+Next == Upd \/ Exec \/ PendDone \/ Mw \/ Sweep \/ Cb \/ CloseUpd \/ Close
 Spec == Init /\ [][Next]_vars
 
 -----------------------------------------------------------------------------
@@ -202,6 +233,26 @@ Inv_C09_RemovedComplete ==
     pc \in {"cb", "idle"} => \A o \in DOMAIN s.ord :
         (s.ord[o].inbl /\ Has(s.mkt, Mid) /\ s.mkt[Mid].removed # <<>> /\ ~(s.ord[o].status = "PENDING" /\ s.ord[o].void = 0 /\ s.ord[o].m = 0))
             => (s.ord[o].cplt /\ s.ord[o].m = 0 /\ Rem(s.ord[o]) = 0)
+\* ---- closure (C08 / C20 on the closed model): what the lifecycle leaves at the close settles as the rules say
+Closed == pc = "closed"
+Inv_C08_UnmatchedPaysNothing ==
+    Closed => \A o \in DOMAIN s.ord : (s.ord[o].inbl /\ s.ord[o].m = 0) => SettleOf(s, upd.result)[o][1] = 0
+Inv_C08_RemovedPaysNothing ==
+    Closed /\ upd.removed => \A o \in DOMAIN s.ord : s.ord[o].inbl => SettleOf(s, upd.result)[o][1] = 0
+\* the stake at risk never exceeds what was matched: a losing back loses exactly the matched stake, a winning lay
+\* pays exactly the matched liability
+Inv_C08_LossBounded ==
+    Closed => \A o \in DOMAIN s.ord : s.ord[o].inbl =>
+        LET p == SettleOf(s, upd.result)[o] IN
+        /\ (s.ord[o].side = "BACK" /\ upd.result = "LOSER" => p[1] = -(s.ord[o].m * 100))
+        /\ (s.ord[o].side = "LAY" /\ upd.result = "LOSER" => p[1] = s.ord[o].m * 100)
+        /\ (s.ord[o].side = "BACK" /\ upd.result = "WINNER" => p[1] >= 0)
+\* nothing is left queued or in flight for the closed market and no runner context survives it
+Inv_C20_Released == Closed => (s.mkt[Mid].closed /\ s.mkt[Mid].status = "CLOSED" /\ \A k \in DOMAIN s.rc : s.rc[k].mid # Mid)
+\* the sum of the fragments is the matched size at the close (what settlement reads is what was conserved)
+Inv_C04_FragmentsAtClose == Closed => \A o \in DOMAIN s.ord : s.ord[o].inbl => Stl!SumStake(s.ord[o].frags) = s.ord[o].m
+Reach_ClosedWithFill == ~(Closed /\ \E o \in DOMAIN s.ord : s.ord[o].m > 0)
+Reach_FilledOnClosingUpdate == ~(Closed /\ last.act = "close" /\ \E o \in DOMAIN s.ord : s.ord[o].m > 0 /\ s.ord[o].placed = s.clock)
 Prop_C03_Finality == [][FinalityBroken(s, s') = {}]_vars
 Prop_C04_MatchedMonotone == [][\A o \in DOMAIN s.ord \cap DOMAIN s'.ord : MatchedMonotone(s.ord[o], s'.ord[o])]_vars
 Reach_PartialFill == ~(\E o \in DOMAIN s.ord : s.ord[o].m > 0 /\ Rem(s.ord[o]) > 0 /\ Len(s.ord[o].frags) >= 2)
